@@ -1,7 +1,8 @@
 // C12 — rendering always returns and does not accumulate goroutines.
 // Engine S + fault enumeration: every fault plan of the in-memory file system (create failure; a byte
 // limit at every flush boundary and at odd offsets; seek failure; failure of the header rewrite; close
-// failure) x item counts x renderers, each under every schedule with <= 2 preemptions.  "Never returns"
+// failure) x item counts x renderers, each under every schedule (scripted and single-threaded renderers:
+// all interleavings with the writer goroutine; worker-pool renderers: <= 2 preemptions).  "Never returns"
 // is decided as deadlock (main not finished, no enabled thread), not by a timeout.  Goroutine
 // accumulation is decided by the census of threads still parked after k = 1..4 consecutive renders.
 package main
@@ -95,6 +96,11 @@ func field() sdf.SDF3 {
 	return latField
 }
 
+func field2() sdf.SDF2 {
+	c, _ := sdf.Circle2D(1)
+	return c
+}
+
 type boxed struct {
 	s  sdf.SDF3
 	bb sdf.Box3
@@ -122,6 +128,16 @@ func (sc scen) body() func() {
 			case "octree":
 				r3, s3 = render.NewMarchingCubesOctree(2), field()
 			}
+			var r2 render.Render2 = scripted2{sc.Items}
+			var s2 sdf.SDF2 = dummy2{}
+			switch sc.Renderer {
+			case "ms-uniform":
+				r2, s2 = render.NewMarchingSquaresUniform(6), field2()
+			case "ms-quadtree":
+				r2, s2 = render.NewMarchingSquaresQuadtree(6), field2()
+			case "dc2d":
+				r2, s2 = render.NewDualContouring2D(6), field2()
+			}
 			switch sc.Sink {
 			case "stl":
 				render.ToSTL(s3, "out.stl", r3)
@@ -130,9 +146,9 @@ func (sc scen) body() func() {
 			case "3mf":
 				render.To3MF(s3, sc.Path, r3)
 			case "svg":
-				render.ToSVG(dummy2{}, "out.svg", scripted2{sc.Items})
+				render.ToSVG(s2, "out.svg", r2)
 			case "dxf":
-				render.ToDXF(dummy2{}, sc.Path, scripted2{sc.Items})
+				render.ToDXF(s2, sc.Path, r2)
 			}
 		}
 	}
@@ -228,6 +244,22 @@ func main() {
 			}
 		}
 	}
+	// the other renderers of the library (no concurrency of their own: the writer goroutine is the only
+	// other thread) into failing and working sinks
+	for _, rn := range []string{"ms-uniform", "ms-quadtree", "dc2d"} {
+		for _, p := range []*vos.Plan{none(), {Limit: -1, FailCreate: true}, {Limit: 10}} {
+			scens = append(scens, scen{Sink: "svg", Renderer: rn, Renders: 1, Plan: p, Workers: 1, Bound: -1})
+		}
+		for _, path := range []string{filepath.Join(work, "no-such-dir", rn), "/dev/full", filepath.Join(work, "ok-"+rn)} {
+			scens = append(scens, scen{Sink: "dxf", Renderer: rn, Renders: 1, Plan: none(), Path: path + ".dxf", Workers: 1, Bound: -1})
+		}
+	}
+	// the worker-pool renderers with the remaining fault classes (one render)
+	for _, rn := range []string{"uniform", "octree"} {
+		for _, p := range []*vos.Plan{{Limit: -1, FailCreate: true}, {Limit: 0}, {Limit: -1, FailAfterSeek: true}} {
+			scens = append(scens, scen{Sink: "stl", Renderer: rn, Renders: 1, Plan: p, Workers: 2, Bound: 2})
+		}
+	}
 	census := map[string]map[int]int64{}
 	m := c.RunSharded(len(scens), func(i int, j *vlib.Job) {
 		sc := scens[i]
@@ -247,6 +279,11 @@ func main() {
 			if int64(x.Leaked) > maxLeak {
 				maxLeak = int64(x.Leaked)
 			}
+			// renderers without a process-wide worker pool start nothing that may outlive the call: a thread
+			// still parked after the call returned is left behind once per render
+			if x.Leaked > 0 && !x.Deadlock && sc.Renderer != "uniform" {
+				j.Violation(fmt.Sprintf("To%s|goroutine-left-behind|%s", sc.Sink, pn), fmt.Sprintf("render to %s (%s renderer, %d items, plan %s) returned with %d goroutines still parked: %v", sc.Sink, sc.Renderer, sc.Items, pn, x.Leaked, x.LeakedOps), rep())
+			}
 			for k, v := range vos.Current.Fired {
 				j.Count("fired:"+k, int64(v))
 			}
@@ -258,7 +295,6 @@ func main() {
 		j.States += st.Executions
 		j.Transitions += st.Steps
 		j.Count("executions", st.Executions)
-		j.Count("pruned-executions", st.Pruned)
 		j.Count("pruned-executions", st.Pruned)
 		j.Count("exec|"+sc.Sink+"|"+sc.Renderer, st.Executions)
 		j.Count("steps|"+sc.Sink+"|"+sc.Renderer, st.Steps)
@@ -321,7 +357,7 @@ func main() {
 		Samples:    samples,
 		Exhaustive: true,
 		Bounds: map[string]any{"items": items, "stl_plans": "create / seek / header-rewrite / close failure; byte limit at 0,1,83,84,85, every 4096 multiple -1/+0/+1/+2048 below the file size, size-50, size-1", "preemption_bound": bound,
-			"real_fs_sinks": "3MF and DXF into a nonexistent directory, /dev/full and a writable path (<=1 preemption)", "census": "uniform and octree renderers, 1-2 workers, k=1..4 consecutive renders", "scenarios": len(scens)},
+			"real_fs_sinks": "3MF and DXF into a nonexistent directory, /dev/full and a writable path (all interleavings)", "other_renderers": "marching squares uniform/quadtree and 2D dual contouring into SVG (3 plans) and DXF (3 paths)", "census": "uniform and octree renderers, 1-2 workers, k=1..4 consecutive renders", "scenarios": len(scens)},
 		Extra: map[string]any{"counters": m.Counters},
 		Assumptions: []string{"I/O failure is modelled as an error return of Create/Write/Seek/Close of the in-memory file (a byte limit makes a write fall short at that offset); kernel-level behaviour (SIGXFSZ default action) is outside the model",
 			"deadlock (main thread not finished, no enabled thread) decides 'never returns'"},
